@@ -182,7 +182,8 @@ func (t *textReader) nextBeforeFieldName() (bool, error) {
 			}
 		}
 
-		if tok == tokenSymbolQuoted {
+		if tok == tokenSymbolQuoted || tok == tokenString || tok == tokenLongString {
+			// Quoted text is always text, even when it is shaped like a symbol identifier.
 			t.fieldName = &SymbolToken{Text: &val, LocalSID: SymbolIDUnknown}
 		} else {
 			st, err := newSymbolToken(t.SymbolTable(), val)
